@@ -6,20 +6,21 @@
 // hang, without taking the harness down.  Everything lives under -work.
 //
 // Tie B (model vs code):
-//   * order of the steps of Add as observed through the hook trace vs the regenerated step list;
-//   * directory state after a death at every crash point (and after a simulated power loss that drops
+//   - order of the steps of Add as observed through the hook trace vs the regenerated step list;
+//   - directory state after a death at every crash point (and after a simulated power loss that drops
 //     unsynced bytes) vs the state computed by the Lean file-system model;
-//   * real cache entries vs `serialize` of the Lean model on the same fields, byte for byte;
-//   * outcome of CompileModule on planted entries (every truncation length, rewritten versions, single-bit
+//   - real cache entries vs `serialize` of the Lean model on the same fields, byte for byte;
+//   - outcome of CompileModule on planted entries (every truncation length, rewritten versions, single-bit
 //     flips) vs `deserialize`/`getFromCache` of the model: error class, stale → deleted and recompiled, hit.
+//
 // Tie C (the property's own predicate on the real code):
-//   * after a death at any point the final name holds nothing or the complete entry, temp names never look
+//   - after a death at any point the final name holds nothing or the complete entry, temp names never look
 //     like final names, and a fresh runtime on that directory compiles afresh or hits a complete entry and
 //     computes the same guest results as a cache-less run;
-//   * a truncated entry or one written by another version is never used: CompileModule reports an error or
+//   - a truncated entry or one written by another version is never used: CompileModule reports an error or
 //     discards it and recompiles; results equal the cache-less run; a crash of the child is a violation;
-//   * 8 concurrent writers of one key: readers only ever see no entry or the complete one;
-//   * determinism: separate processes with different GOMAXPROCS produce byte-identical entries.
+//   - 8 concurrent writers of one key: readers only ever see no entry or the complete one;
+//   - determinism: separate processes with different GOMAXPROCS produce byte-identical entries.
 package main
 
 import (
@@ -45,14 +46,17 @@ import (
 
 	"github.com/tetratelabs/wazero"
 	"github.com/tetratelabs/wazero/api"
+	"github.com/tetratelabs/wazero/experimental"
 	"github.com/tetratelabs/wazero/imports/wasi_snapshot_preview1"
 	"github.com/tetratelabs/wazero/internal/wasm"
+	"github.com/tetratelabs/wazero/verifharness/allops"
 	"github.com/tetratelabs/wazero/verifharness/hx"
 	"github.com/tetratelabs/wazero/verifharness/wb"
 )
 
 var (
 	childMode = flag.String("child", "", "internal: child mode (run|batch)")
+	altBinary = flag.String("alt-binary", "", "a second build of this harness with another data layout (build tag altlayout): another EXECUTABLE embedding the same wazero")
 	cDir      = flag.String("dir", "", "internal: cache directory ('' = no cache)")
 	cMod      = flag.String("modfile", "", "internal: wasm file")
 	cKind     = flag.String("kind", "", "internal: module kind")
@@ -103,7 +107,7 @@ func runOnce(dir string, mod []byte, kind, engine string, noexec bool) (res RunR
 		defer cache.Close(ctx)
 		cfg = cfg.WithCompilationCache(cache)
 	}
-	rt := wazero.NewRuntimeWithConfig(ctx, cfg)
+	rt := wazero.NewRuntimeWithConfig(ctx, cfg.WithCoreFeatures(api.CoreFeaturesV2|experimental.CoreFeaturesThreads|experimental.CoreFeaturesTailCall))
 	defer rt.Close(ctx)
 	compiled, err := rt.CompileModule(ctx, mod)
 	if err != nil {
@@ -255,9 +259,13 @@ type childOut struct {
 }
 
 func runChild(timeout time.Duration, env []string, args ...string) childOut {
+	return runChildBin(self, timeout, env, args...)
+}
+
+func runChildBin(bin string, timeout time.Duration, env []string, args ...string) childOut {
 	ctx, cancel := context.WithTimeout(context.Background(), timeout)
 	defer cancel()
-	cmd := hx.Supervised(exec.CommandContext(ctx, self, args...))
+	cmd := hx.Supervised(exec.CommandContext(ctx, bin, args...))
 	cmd.Env = append(append(os.Environ(), "GOMEMLIMIT=2GiB"), env...)
 	var so, se bytes.Buffer
 	cmd.Stdout, cmd.Stderr = &so, &se
@@ -749,6 +757,61 @@ func (m *modInfo) determinism(procs []int) {
 	}
 }
 
+// crossExecutable: "the same module with the same settings always produces the same cache entry" - also when the
+// embedding EXECUTABLE is another one (same wazero, same version directory and key): the alt binary must write the
+// byte-identical entry, and each executable must get a hit on the entry the other wrote and compute the same
+// results.  Anything of the compiling process that leaks into the machine code (an address of a Go global, a
+// pointer-keyed order) shows here and nowhere within one binary.
+func (m *modInfo) crossExecutable() {
+	if *altBinary == "" {
+		return
+	}
+	rep.Case("cross-executable:" + m.Name)
+	in := map[string]any{"module": m.Name, "module_hex": trunc(hex.EncodeToString(m.Bytes)), "other_executable": "the same harness built with -tags altlayout"}
+	dirA, dirB := freshDir("xa-"+m.Name), freshDir("xb-"+m.Name)
+	defer os.RemoveAll(dirA)
+	defer os.RemoveAll(dirB)
+	// B (alt) writes its own entry
+	coB := runChildBin(*altBinary, 240*time.Second, nil, m.runArgs(filepath.Join(dirB, "cache"))...)
+	eB, err := os.ReadFile(filepath.Join(dirB, "cache", m.VDir, m.EntryName))
+	if err != nil || coB.ExitCode != 0 {
+		violate("impl-violation", "C13:other-executable-writes-no-entry:"+m.Name, fmt.Sprintf("another executable embedding the same wazero wrote no entry under the same name (exit %d, %v): %s", coB.ExitCode, err, coB.Stderr), in, "entry "+m.EntryName, nil)
+		return
+	}
+	if !bytes.Equal(eB, m.Entry) {
+		diff := -1
+		for i := 0; i < len(eB) && i < len(m.Entry); i++ {
+			if eB[i] != m.Entry[i] {
+				diff = i
+				break
+			}
+		}
+		violate("impl-violation", "C13:entry-differs-between-executables:"+m.Name, "the same module, settings and wazero version compiled by another executable produced a different cache entry",
+			in, fmt.Sprintf("%d bytes identical", len(m.Entry)), fmt.Sprintf("len=%d first difference at byte %d (region %s)", len(eB), diff, m.Lay.regionOf(diff)))
+	}
+	if rb := coB.Results[0]; rb.key() != m.Baseline.key() {
+		violate("impl-violation", "C13:other-executable-results-differ:"+m.Name, "another executable computes different guest results on its own cold run", in, m.Baseline.key(), rb.key())
+	}
+	// cross use: A's entry read by B, B's entry read by A (both must be hits that compute the baseline results; a
+	// crash of the child is a violation)
+	os.MkdirAll(filepath.Join(dirA, "cache", m.VDir), 0o755)
+	os.WriteFile(filepath.Join(dirA, "cache", m.VDir, m.EntryName), m.Entry, 0o600)
+	for _, x := range []struct {
+		who, bin, dir string
+	}{{"other executable on this executable's entry", *altBinary, dirA}, {"this executable on the other's entry", self, dirB}} {
+		co := runChildBin(x.bin, 240*time.Second, nil, m.runArgs(filepath.Join(x.dir, "cache"))...)
+		r, ok := co.Results[0]
+		switch {
+		case co.ExitCode != 0 || co.Killed || !ok:
+			violate("impl-violation", "C13:entry-of-another-executable-crashes-the-reader:"+m.Name, fmt.Sprintf("%s: the process died (exit %d, killed %v): %s", x.who, co.ExitCode, co.Killed, co.Stderr), in, m.Baseline.key(), nil)
+		case r.key() != m.Baseline.key():
+			violate("impl-violation", "C13:entry-of-another-executable-computes-differently:"+m.Name, x.who+": results differ from the cache-less run", in, m.Baseline.key(), r.key())
+		default:
+			rep.Count("cross-executable-ok")
+		}
+	}
+}
+
 // ---- crash points
 type crashPoint struct {
 	env    string // value of WAZERO_VERIF_CRASH
@@ -1223,7 +1286,9 @@ func (m *modInfo) bitflips(r *rand.Rand, nexec int) {
 		// compile only: executing machine code entered at a corrupted offset can do anything
 		ps = append(ps, plant{label: "bitflip", detail: fmt.Sprintf("bit=%d", b), bytes: e, pos: b / 8, noexec: true})
 	}
-	sort.Slice(ps, func(i, j int) bool { return ps[i].pos*8 < ps[j].pos*8 || (ps[i].pos == ps[j].pos && ps[i].detail < ps[j].detail) })
+	sort.Slice(ps, func(i, j int) bool {
+		return ps[i].pos*8 < ps[j].pos*8 || (ps[i].pos == ps[j].pos && ps[i].detail < ps[j].detail)
+	})
 	rs := m.runPlants("bitflip", ps)
 	m.judgePlants("bitflip", ps, rs, len(m.Entry) < 20000)
 	// consequence of the accepted flips in the function offsets: execute a few of them, one child each
@@ -1485,6 +1550,8 @@ func main() {
 		nbig = 160
 	}
 	big := addMod("big", "plain", bigModule(r, nbig))
+	ab, _ := allops.Module()
+	addMod("allops", "plain", ab) // every instruction wazero knows: a process-dependent lowering of ONE of them must not hide
 	var dwarf, tinygo *modInfo
 	if b, err := os.ReadFile(filepath.Join(repo, "internal/testing/dwarftestdata/testdata/zig-cc/main.wasm")); err == nil {
 		dwarf = addMod("dwarf-zigcc", "dwarf", b)
@@ -1530,7 +1597,7 @@ func main() {
 	for _, m := range mods {
 		if okMods[m] {
 			m := m
-			par(func() { m.determinism(procs) })
+			par(func() { m.determinism(procs); m.crossExecutable() })
 		}
 	}
 	wg.Wait()
